@@ -40,11 +40,14 @@ def run(ck, replay=None):
     for row in rows:
         n = row['n']
         for dt in ['str', 'json']:
-            style = rng.choice(['num', 'word'])
+            # an item may be the empty string: it is still an item (only the `b` flag strips blanks)
+            style = rng.choice(['num', 'word', 'blank'] if (dt == 'json' and n >= 2) else ['num', 'word'])
             if style == 'num':
                 vals = list(range(1, n + 1)) if dt == 'str' else [str(x) for x in range(1, n + 1)]
             else:
                 vals = ['%s%d' % (rng.choice(['it', 'Jan', 'x', 'q_']), p) for p in range(1, n + 1)]
+                if style == 'blank':
+                    vals[rng.randrange(n)] = ''
             if style == 'num' and n >= 2 and rng.random() < 0.5:
                 head = '%s [1..%d]' % ('a' if dt == 'str' else 'ja', n)
             else:
